@@ -72,6 +72,11 @@ theorem C18_resume_touches_no_stack (σ : State) (t u : Tid) :
     (step σ (.resume t)).tasks[u]?.map (·.stack) = σ.tasks[u]?.map (·.stack) :=
   resume_frame σ t u
 
+/-- killing a parked process from outside changes no stack at all (the scope is left by the stepping task itself) -/
+theorem C18_kill_touches_no_stack (σ : State) (t u : Tid) :
+    (step σ (.kill t)).tasks[u]?.map (·.stack) = σ.tasks[u]?.map (·.stack) :=
+  kill_frame σ t u
+
 /-- scheduling a callback from outside (`p.call_soon(cb)` between two callbacks) leaves every existing task untouched -/
 theorem C18_external_call_soon_touches_no_task (σ : State) (p : Pid) (cb : Nat) (u : Tid) (hu : u < σ.tasks.length) :
     (step σ (.callSoon p cb)).tasks[u]? = σ.tasks[u]? :=
